@@ -1,6 +1,116 @@
 import EupsModel.Drv.Util
+import EupsModel.Model.Deps
 namespace EupsModel.Drv.C13
-open Lean EupsModel EupsModel.Drv
-/-- placeholder until the C13 model exists -/
-def handle : Handler := fun _ => throw "model C13 not built"
+open Lean EupsModel EupsModel.Drv EupsModel.Deps
+
+/-! JSON <-> model values for C13 (also used by the C14 handler). -/
+
+def depOfJson (j : Json) : Except String Dep := do
+  let k ← (← j.getObjVal? "k").getStr?
+  let (uns, opt) ← match k with
+    | "req" => pure (false, false)
+    | "opt" => pure (false, true)
+    | "unreq" => pure (true, false)
+    | "unopt" => pure (true, true)
+    | _ => throw s!"unknown dependency kind {k}"
+  let j' := match j.getObjVal? "j" with
+    | .ok (Json.bool b) => b
+    | _ => false
+  pure { unsetup := uns, optional := opt, name := ← jstr j "n", ver := ← jstrOpt j "v", noRec := j' }
+
+def dbOfJson (g : Json) : Except String Db := do
+  let ps ← jarr g "products"
+  let mut decls : List Decl := []
+  let mut cur : List (Str × Str) := []
+  for p in ps do
+    let n ← jstr p "name"
+    let v ← jstr p "version"
+    let deps ← (← jarr p "deps").mapM depOfJson
+    let missing := match p.getObjVal? "missing" with
+      | .ok (Json.bool b) => b
+      | _ => false
+    decls := decls ++ [{ name := n, ver := v, deps := deps, tableMissing := missing }]
+    let tags ← match p.getObjVal? "tags" with
+      | .ok t => do pure ((← t.getArr?).toList)
+      | .error _ => pure []
+    for t in tags do
+      if (← t.getStr?) == "current" then cur := cur ++ [(n, v)]
+  pure { decls := decls, current := cur }
+
+def prodToJson (p : Prod) : List Json := [ofStr p.name, ofStrOpt p.ver, Json.bool p.real]
+
+def entryToJson (e : Entry) : Json :=
+  Json.arr (prodToJson e.prod ++ [Json.bool e.optional, match e.depth with | some d => (d : Json) | none => Json.null]).toArray
+
+def outcomeToJson : Outcome → Json
+  | .ok l => Json.mkObj [("out", "ok"), ("list", Json.arr (l.map entryToJson).toArray)]
+  | .cycle => Json.mkObj [("out", "Cycle")]
+  | .outOfFuel => Json.mkObj [("out", "Recursion")]
+
+def userToJson (u : User) : Json :=
+  Json.arr #[ofStr u.name, ofStr u.ver, ofStrOpt u.need, Json.bool u.optional, (u.depth : Json)]
+
+def pairOfJson (j : Json) : Except String (Str × Option Str) := do
+  let a ← j.getArr?
+  match a.toList with
+  | [n, v] =>
+    let n ← n.getStr?
+    let v ← match v with
+      | Json.null => pure none
+      | v => do pure (some (Str.ofString (← v.getStr?)))
+    pure (Str.ofString n, v)
+  | _ => throw "expected [name, version]"
+
+/-- integer graphs for the direct tests of `topologicalSort` / the component specification -/
+def natGraphOfJson (j : Json) : Except String (Topo.Graph Nat) := do
+  (← jarr j "graph").mapM fun e => do
+    let a ← e.getArr?
+    match a.toList with
+    | [k, vs] => do pure (← k.getNat?, ← (← vs.getArr?).toList.mapM (·.getNat?))
+    | _ => throw "expected [node, [deps]]"
+
+def natsToJson (l : List Nat) : Json := Json.arr (l.map fun (n : Nat) => (n : Json)).toArray
+
+/-- ops:
+* `all`  : `{"graph":G,"roots":[[n,v]..],"modes":[[topological,checkCycles]..],"queries":[[n,v|null]..]}` →
+  every listing (roots × modes), the outcome of `uses()` and the answer to every `users` query;
+* `topo` : `{"graph":[[node,[deps]]..],"cc":bool}` → layers of `topologicalSort` on an integer graph;
+* `scc`  : `{"graph":[[node,[deps]]..]}` → the mutual-reachability classes. -/
+def handle : Handler := fun j => do
+  let op ← (← j.getObjVal? "op").getStr?
+  match op with
+  | "all" =>
+    let db ← dbOfJson (← j.getObjVal? "graph")
+    let fuel := db.fuel
+    let roots ← (← jarr j "roots").mapM pairOfJson
+    let modes ← (← jarr j "modes").mapM fun m => do
+      let a ← m.getArr?
+      match a.toList with
+      | [t, c] => do pure (← t.getBool?, ← c.getBool?)
+      | _ => throw "expected [topological, checkCycles]"
+    let lists := roots.map fun (n, v) =>
+      Json.arr (modes.map fun (t, c) => outcomeToJson (getDependentProducts db fuel ⟨n, v, true⟩ t c)).toArray
+    let queries ← (← jarr j "queries").mapM pairOfJson
+    let usesPart : List (String × Json) :=
+      if queries.isEmpty then [] else
+      match usesInfo db fuel with
+      | .outOfFuel => [("uses", "Recursion")]
+      | .cycle => [("uses", "Cycle")]
+      | .ok sb => [("uses", "ok"),
+                   ("users", Json.arr (queries.map fun (n, v) => Json.arr ((users sb n v).map userToJson).toArray).toArray)]
+    pure (Json.mkObj ([("lists", Json.arr lists.toArray)] ++ usesPart))
+  | "topo" =>
+    let g ← natGraphOfJson j
+    match Topo.topologicalSort g (← jbool j "cc") with
+    | .ok ls => pure (Json.mkObj [("out", "ok"), ("layers", Json.arr (ls.map natsToJson).toArray)])
+    | .cycle => pure (Json.mkObj [("out", "Cycle")])
+    | .outOfFuel => pure (Json.mkObj [("out", "Recursion")])
+  | "scc" =>
+    let g := Topo.normalise (← natGraphOfJson j)
+    match Topo.reachTable g with
+    | none => pure (Json.mkObj [("out", "Recursion")])
+    | some R => pure (Json.mkObj [("out", "ok"),
+        ("comps", Json.arr ((Topo.components R (Topo.keys g)).map natsToJson).toArray)])
+  | _ => throw s!"unknown op {op}"
+
 end EupsModel.Drv.C13
